@@ -89,7 +89,7 @@ FIXED_SP = [
 ]
 
 
-FIXED_DOCS = [(False, 0), (False, 1), (False, 2), (False, 3), (True, 1), (True, 3)]
+FIXED_DOCS = [(False, 0), (True, 1), (False, 2), (True, 3)]
 
 
 def base_docs(tier: str, seed: int) -> List[List[Any]]:
@@ -97,10 +97,10 @@ def base_docs(tier: str, seed: int) -> List[List[Any]]:
     docs: List[List[Any]] = []
     for allow, k in FIXED_DOCS:
         docs.append(['fixed', allow, k])
-    n = {'quick': 22, 'thorough': 1000}.get(tier, 22)
+    n = {'quick': 20, 'thorough': 1000}.get(tier, 20)
     rng = random.Random(seed * 7919 + 7)
     for i in range(n):
-        size = ('tiny', 'small', 'small', 'medium')[i % 4] if tier != 'quick' else ('tiny', 'small')[i % 2]
+        size = ('tiny', 'small', 'small', 'medium')[i % 4] if tier != 'quick' else ('tiny', 'small', 'tiny', 'small', 'tiny')[i % 5]
         docs.append(['rand', rng.randrange(10 ** 9), size, i % 4 == 3, rng.randrange(10 ** 6)])
     return docs
 
@@ -173,15 +173,15 @@ def _show(text: str, f: F.Fault, width: int = 420) -> str:
 class FaultsRejected(BObl):
     id = 'C07.B.faults'
     property = 'C07'
-    rule = ('base documents: a hand-written document holding every body and settings-list class (4 spellings, 2 of them also with '
+    rule = ('base documents: a hand-written document holding every body and settings-list class (4 spellings, 2 of them with '
             'allow_properties) plus seeded random models through surface(); every site of spec/fault.py (start, before each '
             'top-level element, every line start of every body incl. before its closing brace, after "[" / each "," / '
             'before "]" of every settings list, every body / list / column / reference itself, end of input) x every '
             'fault kind that applies there (19 kinds: stray token, extra/missing { } [ ], unterminated single/double/'
             'triple string, column without type, unknown column/index setting, index type, ref operator, ref action, '
             'malformed colour).  Oracle: pyparsing.ParseBaseException and nothing else.')
-    bound = ('quick: 6 fixed + 22 random (tiny/small) documents, sites x kinds complete, one rotating variant per '
-             '(site, kind); thorough: 6 fixed + 1000 random (tiny..medium), all variants')
+    bound = ('quick: 4 fixed + 20 random (tiny/small) documents, sites x kinds complete, one rotating variant per '
+             '(site, kind); thorough: 4 fixed + 1000 random (tiny..medium), all variants')
     budget = {'quick': 25.0, 'thorough': 1500.0}
     chunk = 48
 
@@ -233,7 +233,7 @@ class NoLeak(BObl):
             '(view v0), parse the faulted document A\' (must not return), parse B again (v1) and the well-formed '
             'original A (vA) ; oracle: v1 == v0 and vA == view of A parsed before the rejection.  Non-trivial = the '
             'faulted document was rejected.')
-    bound = 'quick: 28 documents x 12 sampled faults; thorough: 1006 documents x 12'
+    bound = 'quick: 24 documents x 12 sampled faults; thorough: 1004 documents x 12'
     budget = {'quick': 12.0, 'thorough': 600.0}
     chunk = 16
     per_doc = 12
